@@ -173,7 +173,11 @@ class instruction_mips32(cpu.instruction):
             raise ValueError('symbol not resolved %s' % self.l)
         if not isinstance(e, ExprInt):
             return
-        off = (int(e) - self.offset) & int(e.mask)
+        if self.name in ["J", "JAL"]:
+            # Destination inside the current 256MB region (see dstflow2label)
+            off = int(e) & ((1 << 28) - 1)
+        else:
+            off = (int(e) - self.offset) & int(e.mask)
         if int(off % 4):
             raise ValueError('strange offset! %r' % off)
         self.args[ndx] = ExprInt(off, 32)
